@@ -473,6 +473,9 @@ func run[V any](r *engine.Rec, c *cfg[V]) {
 		if it.HasNext() || set.GetSize() != len(got) || set.IsEmpty() != (len(got) == 0) {
 			return viol("size/emptiness/iterator disagree with array view", fmt.Sprint(got))
 		}
+		if why := common.TwoLiveIterators[V](func() age.IteratorLike[V] { return set.GetIterator() }, got, true); why != "" {
+			return viol("two iterators over one set influence each other", why)
+		}
 		for _, v := range c.universe {
 			k := set.GetIndex(v)
 			want := mIndex(c, exp.m, v)
